@@ -205,7 +205,9 @@ impl<T> Pool<T> {
         crate::verif::point("uget.permit");
         let obj = {
             let mut queue = inner.queue.lock().unwrap();
-            queue.pop().unwrap()
+            // The queue can only be empty here if the pool has been closed
+            // (and cleared) after the permit was obtained.
+            queue.pop().ok_or(PoolError::Closed)?
         };
         #[cfg(deadpool_verif)]
         crate::verif::point("uget.popped");
@@ -248,7 +250,9 @@ impl<T> Pool<T> {
         crate::verif::point("uget.permit");
         let obj = {
             let mut queue = inner.queue.lock().unwrap();
-            queue.pop().unwrap()
+            // The queue can only be empty here if the pool has been closed
+            // (and cleared) after the permit was obtained.
+            queue.pop().ok_or(PoolError::Closed)?
         };
         #[cfg(deadpool_verif)]
         crate::verif::point("uget.popped");
